@@ -79,6 +79,8 @@ type steps struct {
 	// children), "error-echo" (an error IQ that only echoes the request),
 	// "get" / "notype" (an IQ that is neither result nor error)
 	bindReply string
+	// receiving side: the application's bind callback (nil: BindResource)
+	bindFn func(jid.JID, string) (jid.JID, error)
 	// the SCRAM server has sent its final message
 	scramDone bool
 	// the peer's stream headers carry this to attribute ("" none)
@@ -476,6 +478,9 @@ func fullReceiver(ws bool, withVol bool, volFails bool) transcript {
 						return string(u) == "juliet" && string(p) == "secret"
 					}, sasl.Plain),
 					xmpp.BindResource(),
+				}
+				if st.bindFn != nil {
+					fs[1] = xmpp.BindCustom(st.bindFn)
 				}
 				if !ws {
 					fs = append([]xmpp.StreamFeature{startTLSStandIn()}, fs...)
@@ -1173,6 +1178,49 @@ func TestC04RefusedBind(t *testing.T) {
 				}
 				if msg != "" {
 					ev.Failf(t, "%s\nthe peer answered the bind request with an IQ that is not a result\n%s", describe(tr, fault{kind: "none"}, plain, result{}, r), msg)
+				}
+			}
+		}
+	}
+}
+
+// TestC04BindCallbackFails: on the receiving side the application's bind
+// callback fails with an error that is not a stanza error (its database is
+// down): the step has failed, establishment must report an error.
+func TestC04BindCallbackFails(t *testing.T) {
+	ev.Begin(t)
+	for _, ws := range []bool{false, true} {
+		for _, wrapper := range []bool{false, true} {
+			for _, kind := range []string{"plain-error", "wrapped-error", "after-success"} {
+				tr := fullReceiver(ws, false, false)
+				tr.name += " with a bind callback that fails (" + kind + ")"
+				old := tr.prep
+				calls := 0
+				tr.prep = func(st *steps) {
+					if old != nil {
+						old(st)
+					}
+					st.wrapper = wrapper
+					st.bindFn = func(j jid.JID, res string) (jid.JID, error) {
+						calls++
+						switch kind {
+						case "wrapped-error":
+							return jid.JID{}, fmt.Errorf("binding %q: %w", res, io.ErrUnexpectedEOF)
+						case "after-success":
+							// an address AND an error: the error counts
+							full, _ := j.WithResource("r1")
+							return full, errors.New("quota exceeded")
+						}
+						return jid.JID{}, errors.New("database down")
+					}
+				}
+				ev.Case(true, fmt.Sprintf("%s convenience-constructor=%v", tr.name, wrapper), "bind-callback-fails", "bind-callback-fails-"+kind)
+				r := runWith(tr, fault{kind: "none"}, false)
+				if calls == 0 {
+					t.Fatalf("harness: the bind callback never ran in %q (err=%v)", tr.name, r.err)
+				}
+				if msg := judgeMust(r); msg != "" {
+					ev.Failf(t, "%s\nthe application's bind callback returned an error that is not a stanza error\n%s", describe(tr, fault{kind: "none"}, false, result{}, r), msg)
 				}
 			}
 		}
